@@ -110,6 +110,15 @@ pub fn check(c: &Case, obs: &mut Obs) -> R {
             obs.label(l);
         }
     }
+    // rarely used expression entry points (measured so that a generator that stops producing them is noticed)
+    for (k, l) in [("LOCALTIMESTAMP", "expr/custom-keyword"), ("_TSQUERY(", "expr/pg-text-search-fn"), ("TS_RANK_CD(", "expr/pg-text-search-fn"), (" ILIKE ", "expr/pg-ilike"), (" IN ((", "expr/in-tuples")] {
+        if sql.contains(k) {
+            obs.label(l);
+        }
+    }
+    if matches!(built, Built::With(_)) {
+        obs.label("with-query-wrapper");
+    }
     if values.0.len() >= 2 && nested {
         obs.nontrivial(&sql);
         obs.label(format!("params>=2/{}", d.name()));
